@@ -7,11 +7,12 @@
       - the glif codec by the real one: [T_glyph] = the glyph value type of Model/Glif.v,
         [enc] = [encode_glif] (Model/GlifEncode.v), [dec] = [parse_glif] (Model/GlifParse.v),
         [glyph_name] = [gname], [set_name] = the assignment [glyph.name = name] of Layer::load_impl;
-        its domain of validity [wf_glyph] is: the glyph rules of C12, finite numbers, NO LIBS (the
-        composite round trip of C02 is proved for lib-free glyphs only), a note that survives (outside
-        F3), and canonical numbers (no negative zero where the writer tests [== 0.0], colours that
-        are fixed points of the three-decimal rendering); on that domain the round trip is exact,
-        so the part equality is Leibniz equality.
+        its domain of validity [wf_glyph] is: the glyph rules of C12, finite numbers, glyph lib and
+        object libs the plist writer and reader agree on ([libs_valid]), outside F3 (a note that
+        survives, lib text without line breaks), and canonical form (no negative zero where the
+        writer tests [== 0.0], colours that are fixed points of the three-decimal rendering, lib
+        keys sorted recursively as the writer sorts them); on that domain the full round trip of
+        C02 ([C02_roundtrip]) is exact, so the part equality is Leibniz equality.
       - the font-info part by the real one (Model/FontRealInfo.v): [T_irest] / [T_gbody] = the
         validated view of FontInfo of C13 and its guideline lines, [enc] = [fi_save] then [encode],
         [dec] = [fi_load], [info_ok] = [fi_validate]; exact round trip on [wf_sinfo]
@@ -28,7 +29,7 @@
     fontinfo record of C13; the write options are the glif writer's options paired with the
     plist-layer options. *)
 Require Import Norad.Model.GlifSpec Norad.Model.GlifDen Norad.Model.GlifEncode.
-Require Import Norad.Proofs.GlifEncodeP Norad.Proofs.GlifRoundtripP.
+Require Import Norad.Proofs.GlifEncodeP Norad.Proofs.GlifRoundtripP Norad.Proofs.GlifFullP.
 Require Norad.Model.Groups.
 Require Import Norad.Model.FontRT Norad.Model.FontRealInfo.
 Module GR := Norad.Model.Groups.
@@ -74,13 +75,14 @@ Variable fi : Z -> str.
 Variable fh : N -> str.
 Variable K : codecs.
 
-(** what is assumed about the library functions (the L1 hypotheses of C02_roundtrip_partial, with
+(** what is assumed about the library functions (the L1 hypotheses of C02_roundtrip, with
     the colour relation "is what the three-decimal rendering reads back as") *)
 Definition L1_glif : Prop :=
   (forall x, fl_finite x = true -> pf (ff x) = Some x) /\
   (forall x, unit_range x = true ->
      ~ In 44 (ff3 x) /\ exists y, pf (chan ff3 x) = Some y /\ unit_range y = true) /\
-  (forall c, is_scalar c = true -> parse_hex (fh c) = Some c).
+  (forall c, is_scalar c = true -> parse_hex (fh c) = Some c) /\
+  (forall z, int_ok z = true -> plist_int (fi z) = Some z).
 
 Inductive rcontent : Type := RBase (c : K_content K) | RGlif (d : doc) | RInfo (r : FI.raw).
 Definition ropts : Type := (wopts * K_opts K)%type.
@@ -102,13 +104,19 @@ Definition glyph_canon (g : glyph) : Prop :=
   | Some i => transform_written (itrans i) = itrans i /\ ocolor_fixed (icolor i)
   | None => True
   end /\
-  Forall (fun x => ocolor_fixed (gcolor x)) (gguides g) /\
-  Forall (fun a => ocolor_fixed (acolor a)) (ganchors g) /\
-  Forall (fun c => transform_written (ctrans c) = ctrans c) (gcomps g).
+  Forall (fun x => ocolor_fixed (gcolor x) /\ slib (gulib x) = gulib x) (gguides g) /\
+  Forall (fun a => ocolor_fixed (acolor a) /\ slib (alib a) = alib a) (ganchors g) /\
+  Forall (fun c => transform_written (ctrans c) = ctrans c /\ slib (colib c) = colib c) (gcomps g) /\
+  (* the keys of every lib dictionary are sorted, recursively (as the writer sorts them) *)
+  Forall (fun c => slib (clib c) = clib c /\ Forall (fun p => slib (plib p) = plib p) (cpoints c)) (gcontours g) /\
+  sort_keys_rec (glib g) = glib g.
 
-(** the glyphs the real codec is proved to carry through a save and a load unchanged *)
+(** the glyphs the real codec is proved to carry through a save and a load unchanged: the glyph
+    rules of C12, finite numbers, lib values the plist writer and reader agree on ([libs_valid]),
+    outside F3 for EVERY write option (a surviving note, no line break in lib text), canonical *)
 Definition wf_glyph (g : glyph) : Prop :=
-  glyph_rules g /\ glyph_finite g /\ lib_free g /\ note_survives (gnote g) = true /\ glyph_canon g.
+  glyph_rules g /\ glyph_finite g /\ libs_valid g = true /\ libs_plain g = true /\
+  note_survives (gnote g) = true /\ glyph_canon g.
 
 Definition P_glif_real : part rcontent ropts glyph :=
   {| enc := fun o g => match encode_glif ff ff3 fi fh (fst o) g with
@@ -181,13 +189,33 @@ Record codecs_ok (K : codecs) : Prop := {
   k_lib_eq : forall a b, peq (K_lib K) a b <-> pd_eq a b;
   k_li_eq : forall a b, peq (K_li K) a b <-> orel (K_ceq K) (fst a) (fst b) /\ orel pd_eq (snd a) (snd b) }.
 
-(** a lib-free glyph with code points, a note, an anchor, a component and a contour (no colour, so
-    it is canonical for every library function) *)
+(** a glyph with code points, a note, an anchor carrying a lib, a component, a contour and a glyph
+    lib with a nested dictionary, keys sorted (no colour, so it is canonical for every library
+    function) *)
 Definition g_real_sample : glyph :=
   mkGlyph [97] (FFin false 125 2) f0 [65; 66] (Some [104; 105]) None []
-    [mkAnchor f1 f0 (Some [116]) None (Some [97; 49]) None]
+    [mkAnchor f1 f0 (Some [116]) None (Some [97; 49]) (Some [([107], PBool true)])]
     [mkComp [98] t_identity (Some [107; 49]) None]
     [mkContour [mkPoint f0 f1 Line false (Some [97]) (Some [112]) None;
                 mkPoint f1 f0 Off false None None None;
                 mkPoint f1 f1 QCurve true None None None] (Some [99]) None]
-    [].
+    [([97], PInt 1); ([98], PDict [([99], PStr [120]); ([100], PArr [PInt 2; PStr [121]])])].
+
+(** ** closedness of the plist-layer readers (for C04): each reader returns values its writer
+    represents; metainfo with norad's creator is writable; the keys of contents.plist are valid
+    names ([Name]'s deserialiser); the identifiers the font-info reader returns are writable plist
+    keys ([Identifier::new] admits printable ASCII only — the C13 model does not carry that check) *)
+Record codecs_closed (K : codecs) : Prop := {
+  kc_lib : part_closed (K_lib K); kc_groups : part_closed (K_groups K); kc_kerning : part_closed (K_kerning K);
+  kc_lc : part_closed (K_lc K); kc_contents : part_closed (K_contents K); kc_li : part_closed (K_li K);
+  kc_meta_norad : forall mi, wf (K_meta K) {| m_creator := Some NORAD_CREATOR; m_version := 3; m_minor := mi |};
+  kc_contents_names : forall c l, dec (K_contents K) c = Some l -> Forall (fun e => name_valid (fst e) = true) l;
+  kc_info_ids : forall r i, FI.fi_load r = Ok i ->
+                forall gs, FI.i_guides i = Some gs -> Forall (fun g => forall id, FI.g_id g = Some id -> K_wf_key K id) gs }.
+
+(** what the real glif reader does NOT guarantee about a glyph it returns, and the round trip needs:
+    finite numbers (str::parse::<f64> accepts inf and NaN), lib values the plist writer and reader
+    agree on, outside F3 (no line break in lib text; a surviving note), canonical form *)
+Definition glyph_rt_domain (pf : str -> option fl) (ff3 : fl -> str) (g : glyph) : Prop :=
+  glyph_finite g /\ libs_valid g = true /\ libs_plain g = true /\ note_survives (gnote g) = true /\
+  glyph_canon pf ff3 g.
